@@ -1,5 +1,6 @@
 """C04 — tensor representations agree: the packing helpers of _type_casting against a byte-level numpy model, the
 nbytes formula, and (bounded stand-in) cross-representation agreement on the real library."""
+from pyvc.core import Unsupported
 from pyvc.engine import Target
 from pyvc.npmodel import NumpyEngine, TNp
 from pyvc.types import *  # noqa: F401,F403
@@ -8,10 +9,14 @@ from pyvc.types import INT
 TC = "onnx_ir._type_casting"
 LEVEL = "proof"
 ENGINE_CLASS = NumpyEngine
-TRUSTED = ["numpy model: 1-D uint8 arrays as (n, Int->BV8); ravel/view(uint8)/copy keep element bytes for 1-byte dtypes; "
+TRUSTED = ["file API contracts used by the tofile target: read(n) returns at most n bytes starting at the current position and advances it; "
+           "seek sets it; write delivers the chunk; os.copy_file_range(count, offset_src, offset_dst) copies c <= count bytes between the two "
+           "offsets without moving the descriptors; tell() is the current position",
+           "numpy model: 1-D uint8 arrays as (n, Int->BV8); ravel/view(uint8)/copy keep element bytes for 1-byte dtypes; "
            "ndarray.resize zero-pads; strided slices and in-place operators as in numpy (validated natively by the bounded stand-in)"]
 NOT_DECIDED = ["agreement with the ONNX reference encoder/decoder and framework adapters: bounded stand-in only",
-               "per-class tobytes()/numpy()/tofile() of Tensor, PackedTensor, ExternalTensor, LazyTensor, TensorProtoTensor: bounded stand-in only"]
+               "per-class tobytes()/numpy()/tofile() of Tensor, PackedTensor, LazyTensor, TensorProtoTensor and ExternalTensor.tobytes/numpy: "
+               "bounded stand-in only (ExternalTensor.tofile is under contract over a ghost I/O model)"]
 BOUNDED = [{"name": "C04 representations x dtypes x shapes x offsets agree on values and bytes (bounded, not a proof)",
             "script": "bounded_tensor.py", "args": []}]
 
@@ -48,3 +53,182 @@ def build(eng, tier):
                  "forall(lambda j=int: implies(0 <= j and j < dims and j % 4 == 1, result[j] == ((data[j // 4] & 12) >> 2)))",
                  "forall(lambda j=int: implies(0 <= j and j < dims and j % 4 == 2, result[j] == ((data[j // 4] & 48) >> 4)))",
                  "forall(lambda j=int: implies(0 <= j and j < dims and j % 4 == 3, result[j] == ((data[j // 4] & 192) >> 6)))"]))
+
+
+# ------------------------------------------------------------------------------------------------------------------
+# ExternalTensor.tofile: the bytes delivered to the destination are exactly the tensor's range of the data file, in order,
+# no more and no less - over a ghost I/O model.
+
+CORE = "onnx_ir._core"
+
+
+class C04Engine(NumpyEngine):
+    def with_enter_extra(self, p, cm, item, s):
+        from pyvc.types import VRef
+        if isinstance(cm, VRef) and cm.cls == "SrcFile":
+            return [(p, cm)]
+        return super().with_enter_extra(p, cm, item, s)
+
+    def with_exit_extra(self, p, cm, oc, s):
+        from pyvc.types import VRef
+        if isinstance(cm, VRef) and cm.cls == "SrcFile":
+            return [(p, oc)]
+        return super().with_exit_extra(p, cm, oc, s)
+
+
+    def bi_len(self, p, args, kwargs, node):
+        from pyvc.types import VRec
+        if isinstance(args[0], VRec) and args[0].ty.name == "Chunk":
+            return [(p, args[0].fields["n"])]
+        return super().bi_len(p, args, kwargs, node)
+
+    def truth(self, v, p=None):
+        from pyvc.types import VRec
+        if isinstance(v, VRec) and v.ty.name == "Chunk":
+            return v.fields["n"].z != 0          # an empty bytes object is falsy
+        return super().truth(v, p)
+
+
+ENGINE_CLASS = C04Engine
+_build_packing = build
+
+
+def build(eng, tier):
+    _build_packing(eng, tier)
+    build_tofile(eng)
+
+
+def build_tofile(eng):
+    """Ghost I/O model (assumed contracts of the file API, listed): `io` records, for this call, the source range
+    [g_src0, g_src0 + g_len) that must be delivered, the destination position g_dst0 at entry, and g_written = number of
+    bytes delivered so far.  Every delivery (file.write(chunk), os.copy_file_range) carries the obligations
+      - it delivers the bytes that come next in the source range (chunk read at g_src0 + g_written / offset_src likewise),
+      - it lands right after what was delivered before (offset_dst == g_dst0 + g_written),
+      - it does not go beyond the range (g_written + n <= g_len)."""
+    import z3
+    from pyvc.core import ClassDecl, Exc, FnDecl
+    from pyvc.sem_stmt import LoopSpec
+    from pyvc.types import BOOL, NULL, STR, TOpt, TRec, TRef, VBool, VFunc, VInt, VNone, VOpaque, VRec, VRef, fresh_name
+    from . import schema
+    schema.external_tensor(eng)
+    eng.add_class(ClassDecl("IOGhost", fields={"g_src0": INT, "g_len": INT, "g_dst0": INT, "g_written": INT}))
+    eng.add_class(ClassDecl("SrcFile", fields={"g_pos": INT}))
+    eng.add_class(ClassDecl("DstFile", fields={}))
+    CHUNK = TRec("Chunk", (("start", INT), ("n", INT)))
+    eng.add_class(ClassDecl("Chunk", record=CHUNK))
+    eng.method_models = dict(eng.method_models)
+    eng.lib_models = dict(eng.lib_models)
+
+    def io(e, p):
+        return e.ghost_env["io"]
+
+    def deliver(e, p, n, src_at, dst_at, where):
+        g = io(e, p)
+        w = e.read_field(p, g, "g_written").z
+        e.oblige(p, src_at == e.read_field(p, g, "g_src0").z + w, "delivers-next-source-bytes", where)
+        if dst_at is not None:
+            e.oblige(p, dst_at == e.read_field(p, g, "g_dst0").z + w, "lands-after-previous-bytes", where)
+        e.oblige(p, w + n <= e.read_field(p, g, "g_len").z, "stays-inside-the-tensor-range", where)
+        e.write_field(p, g, "g_written", VInt(w + n))
+
+    def m_open(e, p, args, kwargs, node):
+        f = e.new_object(p, "SrcFile")
+        e.write_field(p, f, "g_pos", VInt(0))
+        return [(p, f), (p.copy(), Exc("OSError", f"L{node.lineno}:open"))]
+    eng.lib_models["builtins.open"] = m_open
+    eng.global_overrides[(CORE, "open")] = VFunc("lib", "builtins.open", "open")
+
+    def src_seek(e, p, args, kwargs, node):
+        e.write_field(p, args[0], "g_pos", args[1])
+        return [(p, VNone())]
+
+    def src_read(e, p, args, kwargs, node):
+        n = args[1].z
+        m = z3.Int(fresh_name("nread"))
+        p.assume(z3.And(m >= 0, z3.Or(m <= n, n < 0)))
+        pos = e.read_field(p, args[0], "g_pos").z
+        e.write_field(p, args[0], "g_pos", VInt(pos + m))
+        return [(p, VRec(CHUNK, {"start": VInt(pos), "n": VInt(m)}))]
+
+    def src_fileno(e, p, args, kwargs, node):
+        return [(p, VInt(z3.Int(fresh_name("fd"))))]
+    for nm, impl in (("seek", src_seek), ("read", src_read), ("fileno", src_fileno)):
+        eng.method_models[("SrcFile", nm)] = FnDecl(f"SrcFile.{nm}", "builtin", impl=impl)
+
+    def dst_write(e, p, args, kwargs, node):
+        ch = args[1]
+        if not isinstance(ch, VRec):
+            raise Unsupported("file.write of something that was not read from the source file")
+        deliver(e, p, ch.fields["n"].z, ch.fields["start"].z, None, f"L{node.lineno}:file.write")
+        return [(p, VInt(ch.fields["n"].z)), (p.copy(), Exc("OSError", f"L{node.lineno}:write"))]
+
+    def dst_tell(e, p, args, kwargs, node):
+        g = io(e, p)
+        return [(p, VInt(e.read_field(p, g, "g_dst0").z + e.read_field(p, g, "g_written").z))]
+
+    def dst_seek(e, p, args, kwargs, node):
+        g = io(e, p)
+        # the Python file object is advanced to just after the delivered bytes (same semantics as write())
+        e.oblige(p, args[1].z == e.read_field(p, g, "g_dst0").z + e.read_field(p, g, "g_written").z, "position-after-delivered-bytes", f"L{node.lineno}:file.seek")
+        return [(p, VNone())]
+
+    def dst_noop(e, p, args, kwargs, node):
+        return [(p, VInt(z3.Int(fresh_name("fd"))))]
+    for nm, impl in (("write", dst_write), ("tell", dst_tell), ("seek", dst_seek), ("flush", dst_noop), ("fileno", dst_noop)):
+        eng.method_models[("DstFile", nm)] = FnDecl(f"DstFile.{nm}", "builtin", impl=impl)
+
+    def copy_file_range(e, p, args, kwargs, node):
+        count = args[2].z
+        c = z3.Int(fresh_name("ncopied"))
+        q = p.copy()
+        p.assume(z3.And(c >= 0, c <= count))
+        e.oblige(p, count >= 0, "count-non-negative", f"L{node.lineno}:copy_file_range")
+        deliver(e, p, c, kwargs["offset_src"].z, kwargs["offset_dst"].z, f"L{node.lineno}:copy_file_range")
+        return [(p, VInt(c)), (q, Exc("OSError", f"L{node.lineno}:copy_file_range"))]
+    eng.lib_models["os.copy_file_range"] = copy_file_range
+    eng.lib_consts = dict(eng.lib_consts)
+
+    def fresh_bool(e, p, args, kwargs, node):
+        return [(p, VBool(z3.Bool(fresh_name("probe"))))]
+    eng.functions[f"{CORE}._is_regular_file"] = FnDecl(f"{CORE}._is_regular_file", "builtin", impl=fresh_bool)
+    for nm in ("_check_validity", "_check_path_containment"):
+        eng.functions[f"{CORE}.ExternalTensor.{nm}"] = FnDecl(f"{CORE}.ExternalTensor.{nm}", "contract", CORE, f"ExternalTensor.{nm}",
+                                                              requires=[], ensures=[], raises={"AnyException": []}, modifies=[])
+    eng.functions[f"{CORE}.TensorBase.nbytes#getter"] = FnDecl("nbytes", "builtin", impl=lambda e, p, a, k, n: [(p, e.read_field(p, a[0], "nbytes"))])
+    eng.functions[f"{CORE}.ExternalTensor.path#getter"] = FnDecl("path", "builtin", impl=lambda e, p, a, k, n: [(p, VOpaque("path"))])
+
+    def setup(e, p, env):
+        e.lenient = True
+        g = e.symbolic_param(p, "io", TRef("IOGhost"))
+        p.assume(g.z != NULL)
+        e.ghost_env = dict(e.ghost_env)
+        e.ghost_env["io"] = g
+        env["io"] = g
+        orig_getattr = e.bi_getattr
+
+        def bi_getattr(p2, args, kwargs, node):
+            from pyvc.types import VModule
+            if isinstance(args[0], VModule) and args[0].name.endswith("os"):
+                # os.copy_file_range may be absent on this platform
+                q = p2.copy()
+                return [(p2, VFunc("lib", "os.copy_file_range", "copy_file_range")), (q, VNone())]
+            if isinstance(args[0], VRef) and args[0].cls == "DstFile":
+                return [(p2, VOpaque("method of the destination or None"))]
+            return orig_getattr(p2, args, kwargs, node)
+        e.bi_getattr = bi_getattr
+    LEN = "ite(self._length is None or some(self._length) == 0, self.nbytes, some(self._length))"
+    inv = ["io.g_src0 == old(io.g_src0) and io.g_len == old(io.g_len) and io.g_dst0 == old(io.g_dst0)", "0 <= io.g_written"]
+    eng.add_target(Target("ExternalTensor.tofile", mod=CORE, qual="ExternalTensor.tofile", self_cls="ExternalTensor",
+        params={"file": TRef("DstFile")}, setup=setup,
+        requires=["nonnull(file)", "self.nbytes >= 0", "implies(self._offset is not None, some(self._offset) >= 0)",
+                  "implies(self._length is not None, some(self._length) >= 0)",
+                  "io.g_written == 0", f"io.g_len == {LEN}", "io.g_src0 == ite(self._offset is None, 0, some(self._offset))"],
+        loops={1: LoopSpec(invariant=inv + ["copied == io.g_written", "0 <= copied and copied <= bytes_to_copy", "bytes_to_copy == io.g_len",
+                                            "source_offset == io.g_src0", "destination_offset == io.g_dst0"],
+                           modifies=["IOGhost.g_written"]),
+               2: LoopSpec(invariant=inv + ["bytes_to_copy >= 0", "io.g_written + bytes_to_copy == io.g_len",
+                                            "src.g_pos == io.g_src0 + io.g_written"],
+                           modifies=["IOGhost.g_written", "SrcFile.g_pos"])},
+        # exactly the tensor's bytes on a normal return; never more on any exit
+        ensures=["io.g_written == io.g_len"],
+        raises_default=["io.g_written <= io.g_len"], assert_mode="raise"))
